@@ -126,6 +126,67 @@ fn compile_program(src: &str, b: &Builtins) -> Result<qverif::run::Unit, qverif:
     }
 }
 
+/// `execute_bytecode_sync_with`, but with a STEP BUDGET: drives `Executor::step` itself (all pub) and
+/// gives up after `max_rounds` rounds of 1000 instruction units — a compiled program that no longer
+/// terminates (possible after a miscompilation or a VM defect) is an ordinary, shrinkable outcome.
+fn run_limited(
+    bytecode: quiver_core::bytecode::Bytecode,
+    b: &Builtins,
+    max_rounds: usize,
+) -> Result<Option<(quiver_core::value::Value, qverif::run::Exec)>, quiver_core::Error> {
+    use quiver_core::compatibility::{CompatibilityInput, compute_canonical_tuples, compute_param_compatibility, compute_type_compatibility};
+    use quiver_core::executor::ProgramUpdate;
+    let entry = bytecode.entry.ok_or_else(|| quiver_core::Error::InvalidArgument("Bytecode has no entry point".to_string()))?;
+    let mut executor = qverif::run::Exec::new(b.clone(), false, 0);
+    let input = CompatibilityInput {
+        types: &bytecode.types,
+        tuples: &bytecode.tuples,
+        functions: &bytecode.functions,
+        builtins: &bytecode.builtins,
+        resource_names: &bytecode.resources,
+    };
+    let type_compatibility = compute_type_compatibility(&input);
+    let canonical_tuples = compute_canonical_tuples(&bytecode.tuples);
+    let (function_param_compatibility, builtin_param_compatibility) = compute_param_compatibility(&input);
+    let program_update = ProgramUpdate {
+        constants: bytecode.constants,
+        functions: bytecode.functions,
+        tuples: bytecode.tuples[2..].to_vec(),
+        types: bytecode.types,
+        builtins: bytecode.builtins,
+        resources: bytecode.resources,
+        type_compatibility,
+        function_param_compatibility,
+        builtin_param_compatibility,
+        canonical_tuples,
+    };
+    executor.update_program(program_update);
+    let process_id = 0;
+    executor.spawn_process(process_id, Some(entry), vec![], quiver_core::value::Value::nil(), vec![], false)?;
+    for _ in 0..max_rounds {
+        let (_did_work, _action) = executor.step(1000, 0);
+        let process = executor.get_process(process_id).ok_or(quiver_core::Error::InvalidArgument("Process disappeared".to_string()))?;
+        if let Some(result) = &process.result {
+            return match result {
+                Ok(value) => {
+                    let value = value.clone();
+                    if cfg!(debug_assertions) {
+                        if let Err(e) = executor.check_refcounts() {
+                            panic!("refcount invariant violated after sync execution: {e}");
+                        }
+                    }
+                    Ok(Some((value, executor)))
+                }
+                Err(e) => Err(e.clone()),
+            };
+        }
+    }
+    Ok(None)
+}
+
+/// rounds of 1000 instruction units a compiled program may take (generated programs need < 100)
+const MAX_ROUNDS: usize = 3000;
+
 fn run_impl_inner(src: &str, b: &Builtins) -> Impl {
     let unit = match compile_program(src, b) {
         Ok(u) => u,
@@ -138,7 +199,12 @@ fn run_impl_inner(src: &str, b: &Builtins) -> Impl {
     };
     let bc = unit.program.to_bytecode(Some(unit.entry));
     let bc2 = bc.clone();
-    let (out, ex) = qverif::run::run_sync(bc, b, false);
+    let (out, ex) = match qverif::catch(|| run_limited(bc, b, MAX_ROUNDS)) {
+        Ok(Ok(Some((v, ex)))) => (RunOutcome::Value(v), Some(ex)),
+        Ok(Ok(None)) => return Impl::Ran(format!("step-budget-exhausted:{}k-instruction-units", MAX_ROUNDS)),
+        Ok(Err(e)) => (RunOutcome::Error(e), None),
+        Err(p) => (RunOutcome::Panic(p), None),
+    };
     let s = qverif::run::canon_outcome(&out, ex.as_ref(), &bc2);
     match out {
         RunOutcome::Value(_) => Impl::Ran(opaque_functions(&s)),
@@ -237,7 +303,7 @@ impl Checker {
 fn signature_of(model: &str, imp: &str) -> String {
     let kind = if imp.starts_with("panic:") {
         "impl-panic"
-    } else if imp == "timeout" {
+    } else if imp == "timeout" || imp.starts_with("step-budget-exhausted") {
         "impl-timeout"
     } else if imp.starts_with("error:") && model.starts_with("ok ") {
         "impl-error-model-value"
@@ -258,7 +324,9 @@ fn report(ev: &mut Ev, ck: &mut Checker, origin: &str, p: &Program, model: &str,
     // generated programs are shrunk inside the validated fragment only (no drift into unspecified
     // territory or into the shape of an open finding); corpus / suite programs are shrunk freely
     let stay_valid = validate::validate(p).is_ok();
-    let small = if ck.imp.dead {
+    // a hand-written witness of a registered finding is reported as written (free shrinking could
+    // slide it to a different, unspecified program that merely differs in the same way)
+    let small = if ck.imp.dead || forced_signature.is_some() {
         p.clone()
     } else {
         shrink::shrink(
@@ -313,6 +381,26 @@ fn report(ev: &mut Ev, ck: &mut Checker, origin: &str, p: &Program, model: &str,
 fn main() {
     qverif::quiet_panics();
     let opts = Opts::parse();
+    // developer aid: `c02 --dump-code '<source>'` prints the entry function's instructions
+    if let Some(i) = opts.extra.iter().position(|x| x == "--dump-code") {
+        let src = opts.extra.get(i + 1).cloned().unwrap_or_default();
+        let b = qverif::run::builtins();
+        match compile_program(&src, &b) {
+            Ok(unit) => {
+                let bc = unit.program.to_bytecode(Some(unit.entry));
+                for (fi, f) in bc.functions.iter().enumerate() {
+                    println!("function {fi}{} captures={}", if fi == unit.entry { " (entry)" } else { "" }, f.captures);
+                    for (k, ins) in f.instructions.iter().enumerate() {
+                        println!("  {k:3}  {ins:?}");
+                    }
+                }
+                println!("constants: {:?}", bc.constants);
+                println!("tuples: {:?}", bc.tuples.iter().map(|t| (t.name.clone(), t.fields.len())).collect::<Vec<_>>());
+            }
+            Err(e) => println!("rejected: {e:?}"),
+        }
+        return;
+    }
     let mut ev = Ev::new("C02", &opts);
     ev.rule = "distinct accepted generated programs (by S-expression) whose reference value is not nil and that exercise at least one of: refutable match, multi-branch block, consequence, closure, tail call".into();
     let model_path = opts.model.clone().expect("--model <qm_c02>");
